@@ -208,9 +208,19 @@ def run_fit_case(ctx, rng, system, mode, cells, case):
             if cells > ninit and len(system.train_history) != ninit + 1:
                 ctx.violate('C08:tolerance-exit', f'max_tol=1e9 should stop after the first error-driven step ({ninit}+1), history has {len(system.train_history)}', case)
         else:
+            # a time budget that has NOT run out must not stop training: runtime_hr = 0.0005 h = 1.8 s, the few steps below take a fraction of that
+            import time as _time
+            k1 = rng.randint(2, min(5, cells)) if cells >= 2 else 1
+            t0_ = _time.time()
+            system.fit(max_iter=k1, num_refine=8, max_tol=-1.0, runtime_hr=0.0005)
+            el_ = _time.time() - t0_
+            if el_ < 1.5 and len(system.train_history) != min(k1, cells):
+                ctx.violate('C08:step-count', f'fit(max_iter={k1}, runtime_hr=0.0005) stopped after {len(system.train_history)} steps and {el_:.2f} s: '
+                            f'the budget of 1.8 s had not run out ({cells} cells available)', case)
+            n_before = len(system.train_history)
             system.fit(max_iter=10 ** 3, num_refine=8, max_tol=-1.0, runtime_hr=0.0)
-            if len(system.train_history) != 1:
-                ctx.violate('C08:runtime-exit', f'runtime_hr=0 should stop after one step, history has {len(system.train_history)}', case)
+            if len(system.train_history) - n_before > 1:
+                ctx.violate('C08:runtime-exit', f'runtime_hr=0 should stop after one step, {len(system.train_history) - n_before} steps were made', case)
         # one history entry per activation, never beyond the declared maxima
         nact = sum(len(c.active_set) for c in system.components if c.has_surrogate)
         if nact != len(system.train_history):
